@@ -530,7 +530,7 @@ class FiltersSet:
                         args = args[:2] + (":not{}".format(args[2][1:]),) + args[3:]
                     elif node.name == "currentdate":
                         args = args[:3] + (":not{}".format(args[3][1:]),) + args[4:]
-                    elif node.name == "exists":
+                    elif node.name in ("exists", "size"):
                         args = ("not{}".format(args[0]),) + args[1:]
                     negate = False
                 conditions.append(args)
